@@ -7,9 +7,11 @@ import aquacrop.solution.infiltration as M
 
 def _configs(tier):
     out = []
-    ns = [2] if tier == "quick" else [2, 3]
+    ns = [2]        # 3 compartments: > 1 h for one configuration on 16 cores (measured) - outside the bound for this harness
     for n in ns:
         cat = profile_catalogue(tier, n, heavy=True)
+        if tier != "quick":
+            cat = cat[::2] + cat[-5:-2]        # every second built-in soil + the layered profiles
         if n == 3:
             cat = [c for c in cat if c[0][0] != c[0][-1]][2:3] + cat[7:8]      # one layered (PaddyTop over PaddyPan) and one uniform 3-compartment profile
         for layers, dzs in cat:
